@@ -232,6 +232,10 @@ def run_doc(item, only=None):
                     stats["out"].add(("doc", "public-route-unavailable"))
                     continue
                 except ValueError as exc:
+                    if max_len == 0:
+                        # refusing a cap of zero periods outright is as good as honouring it; ignoring it is not
+                        stats["out"].add(("doc", "max_len-0-refused"))
+                        continue
                     stay = stay_expected if max_len is None else min(stay_expected, max_len)
                     req = e2 if not ff else min(e2, pmax * stay * period / 60)
                     if bpk == "l2-fit" and (stay < 1 or not any(cp >= req and can_deliver(cp, req, stay, V, period) for cp in CAPS)):
@@ -442,6 +446,9 @@ def run_sample(item, only=None):
                         warnings.simplefilter("ignore")
                         ev = convert_matrix([[a, du, en]], period, V, pmax, max_len, BP[bpk], ff)[0]
                 except ValueError as exc:
+                    if max_len == 0:
+                        stats["out"].add(("sample", "max_len-0-refused"))
+                        continue
                     stay = exp_d - exp_a
                     if bpk == "l2-fit" and (stay < 1 or not any(cp >= req and can_deliver(cp, req, stay, V, period) for cp in CAPS)):
                         stats["out"].add(("sample", "fit-infeasible"))
